@@ -236,7 +236,15 @@ class Baton:
 # ---------------------------------------------------------------------------
 # request kinds
 
-KINDS = ['plain', 'body', 'raise', 'nf', 'crash', 'json404', 'form', 'hdrs', 'mutq', 'latin', 'badmp_json', 'signed', 'forged', 'stat_s', 'stat_n', 'rewrite', 'tenant', 'whoami']
+KINDS = ['plain', 'body', 'raise', 'nf', 'crash', 'json404', 'form', 'hdrs', 'mutq', 'latin', 'badmp_json', 'signed', 'forged', 'stat_s', 'stat_n', 'rewrite', 'tenant', 'whoami', 'lazy', 'delc_opts', 'delc_plain', 'upload_ct', 'upload_bare']
+
+
+class _Lazy:
+    def __init__(self, v):
+        self.v = v
+
+    def __get__(self, obj, cls=None):
+        return 'user-' + self.v
 
 
 def tenant_of_host(host):
@@ -323,6 +331,40 @@ def make_app(config=None, app=None):
             q['tag'].append('seen-by-' + name)
         p = rq.params
         return json.dumps([name, before, sorted(p.keys())])
+
+    @app.route('/lazy/<name>')
+    def lazy(name):
+        # a lazily evaluated extension attribute of the request (descriptor-valued), read twice
+        rq.who = _Lazy(name)
+        a = rq.who
+        hdr = rq.headers.get('X-Id')
+        b = rq.who
+        rs.headers['X-User'] = str(b)
+        return json.dumps([name, a, hdr, b])
+
+    @app.route('/delc_opts/<name>')
+    def delc_opts(name):
+        rs.delete_cookie('sid', path='/area-' + name, domain=name.lower() + '.example.org')
+        return name
+
+    @app.route('/delc_plain/<name>')
+    def delc_plain(name):
+        rs.delete_cookie('sid')
+        return name
+
+    @app.route('/up/<name>', method='POST')
+    def up(name):
+        # what each uploaded part says about itself
+        out = []
+        for key, u in sorted(rq.files.items()):
+            for one in (u if isinstance(u, list) else [u]):
+                hs = sorted([k, str(getattr(v, 'value', v))] for k, v in one.headers.items())
+                out.append([key, one.raw_filename, hs, str(getattr(one.content_type, 'value', one.content_type))])
+        return json.dumps([name, out])
+
+    @app.route('/crashform/x', method='POST')
+    def crashform():
+        raise ValueError('cannot use %r' % (rq.forms.get('v'),))
 
     @app.route('/rewrite/<name>')
     def rewrite(name):
@@ -423,6 +465,18 @@ def environ_for(kind, name):
         env['QUERY_STRING'] = 'page=2&tag=x&tag=y'          # the same query string for every client
     elif kind == 'latin':
         env['PATH_INFO'] = '/latin/' + name
+    elif kind in ('upload_ct', 'upload_bare'):
+        extra = ('Content-Type: application/x-report-%s\r\nX-Token: tok-%s\r\n' % (name, name)) if kind == 'upload_ct' else ''
+        data = ('--B\r\nContent-Disposition: form-data; name="f"; filename="%s.bin"\r\n%s\r\nDATA-%s\r\n--B--\r\n' % (name, extra, name)).encode()
+        env.update(PATH_INFO='/up/' + name, REQUEST_METHOD='POST', CONTENT_LENGTH=str(len(data)), CONTENT_TYPE='multipart/form-data; boundary=B')
+        env['wsgi.input'] = io.BytesIO(data)
+    elif kind == 'crashform':
+        data = ('v=secret-of-' + name).encode()
+        env.update(PATH_INFO='/crashform/x', REQUEST_METHOD='POST', CONTENT_LENGTH=str(len(data)), CONTENT_TYPE='application/x-www-form-urlencoded',
+                   QUERY_STRING='same=1', HTTP_HOST='same.example', HTTP_COOKIE='c=1')
+        env['wsgi.input'] = io.BytesIO(data)
+    elif kind in ('lazy', 'delc_opts', 'delc_plain'):
+        env['PATH_INFO'] = '/%s/%s' % (kind, name)
     elif kind == 'tenant':
         env['PATH_INFO'] = '/who/' + name
         env['HTTP_HOST'] = 'a.example' if sum(map(ord, name)) % 2 else 'b.example'
@@ -502,24 +556,31 @@ def solo_fresh_interpreter(kind, name):
     raise core.MachineryError('reference interpreter failed: %s' % (p.stdout + p.stderr)[-600:])
 
 
-def reference_table(kinds, names, config=None):
+def reference_table(kinds, names, config=None, isolate=3):
     """{(kind, name): response of a fresh application}, each KIND computed in an interpreter of its own in which no other
     kind of request has ever been served: process-wide state that one kind of request leaves behind (module-level tables,
     caches keyed by the first use) cannot colour the reference of another kind."""
     import subprocess
 
-    def one(kind):
+    def one(kind, these):
         code = ('import sys, json; sys.path.insert(0, %r); from harness import core; core.setup_repo_path(); '
                 'from harness.checks import lifelib as L; '
-                'print("REF" + json.dumps([[n, L.solo(%r, n, %r)] for n in %r]))' % (core.VERIF, kind, config, list(names)))
+                'print("REF" + json.dumps([[n, L.solo(%r, n, %r)] for n in %r]))' % (core.VERIF, kind, config, list(these)))
         env = dict(__import__('os').environ, VERIF_REPO=core.REPO, PYTHONHASHSEED='0')
         p = subprocess.run([sys.executable, '-c', code], capture_output=True, text=True, env=env, timeout=300)
         for line in p.stdout.splitlines():
             if line.startswith('REF'):
                 return kind, json.loads(line[3:])
         raise core.MachineryError('reference interpreter for kind %s failed: %s' % (kind, (p.stdout + p.stderr)[-600:]))
+    def single(kind, name):
+        # one interpreter for one request: not even an earlier request of the same kind has been served in it
+        k, rows = one(kind, [name])
+        return k, rows
     table = {}
-    for kind, rows in core.parallel([(lambda k=k: one(k)) for k in kinds], max_workers=8):
+    names = list(names)
+    jobs = [(lambda k=k, n=n: single(k, n)) for k in kinds for n in names[:isolate]]
+    jobs += [(lambda k=k: one(k, names[isolate:])) for k in kinds if names[isolate:]]
+    for kind, rows in core.parallel(jobs, max_workers=12):
         for n, resp in rows:
             table[(kind, n)] = resp
     return table
